@@ -452,7 +452,10 @@ class Engine:
         if pm:
             mod = pm.group(1).split("::")[0]
             suffix = f"::{pm.group(2)}::promoted[{pm.group(3)}]"
-            hits = [f for n, f in self.fns.items() if n.startswith("const:" + mod) and n.endswith(suffix)]
+            hits = [f for n, f in self.fns.items() if n.startswith("const:") and
+                    (n.endswith(suffix) or n == "const:" + suffix[2:])]
+            if len(hits) > 1:
+                hits = [f for f in hits if f.name.startswith("const:" + mod)] or hits
             if len(hits) != 1:
                 raise Unknown(f"promoted constant {tok}: {len(hits)} definitions")
             sub = self.run(hits[0], [], env={}, pc=[])
@@ -460,6 +463,15 @@ class Engine:
                 raise Unknown("promoted constant did not evaluate: " + tok)
             self.encoded.discard(hits[0].name)
             return sub[0].value
+        if tok.startswith("const "):
+            cv = getattr(self.fns, "const_values", {})
+            path = tok[6:].strip()
+            best = None
+            for name in cv:
+                if (path == name or path.endswith("::" + name)) and (best is None or len(name) > len(best)):
+                    best = name
+            if best is not None and cv[best] != tok:
+                return self.const(cv[best], fr)
         if tok.startswith("const "):
             # function items, zero-sized constants (closures without captures), promoted statics
             name = tok[6:].strip()
@@ -515,7 +527,11 @@ class Engine:
         if m:
             v = self.read_place(st, fr, self.parse_place(m.group(1)))
             if isinstance(v, Agg) and v.disc is not None:
-                return v.disc
+                d = v.disc
+                w = INT_W.get(dst_type.strip())
+                if w and z3.is_bv(d) and d.size() != w:      # #[repr(u8)] enums have a u8 discriminant
+                    d = z3.Extract(w - 1, 0, d) if d.size() > w else z3.ZeroExt(w - d.size(), d)
+                return d
             raise Unknown(f"discriminant of {v!r}")
         m = re.match(r"(Add|Sub|Mul|Div|Rem|BitAnd|BitOr|BitXor|Shl|Shr|Eq|Ne|Lt|Le|Gt|Ge|AddWithOverflow|"
                      r"SubWithOverflow|MulWithOverflow|AddUnchecked|SubUnchecked|MulUnchecked|ShlUnchecked|"
@@ -802,6 +818,8 @@ class Engine:
             rv = fr.loc.get(0)
             if fr.wrap == "ok":
                 rv = Agg("Result", BV(0, 64), {0: rv})
+            elif fr.wrap == "err":
+                rv = Agg("Result", BV(1, 64), {0: rv})
             st.stack.pop()
             if not st.stack:
                 return [Final("return", rv, st)]
@@ -953,6 +971,8 @@ class Engine:
                     wrap = None
                     if type(val).__name__ == "WrapOk":
                         wrap, val = "ok", val.push
+                    elif type(val).__name__ == "WrapErr":
+                        wrap, val = "err", val.push
                     if type(val).__name__ == "PushCall":
                         depth = sum(1 for f in s2.stack if f.fn is val.fn)
                         if depth >= self.max_depth:
